@@ -1020,6 +1020,15 @@ class Interp:
             for vals, s2 in acc:
                 res += self.call_method(self.inline[m], vals, s2)
             return res
+        if m == "take" and not e["args"]:
+            # Option::take on a tracked place: the value moves out, None stays behind
+            pl = self._place(e["recv"])
+            if pl is not None and pl in st.env:
+                cur = st.env[pl]
+                if cur == NONE or (isinstance(cur, tuple) and cur[:1] == ("Some",)):
+                    return [Out("val", cur, st.set(pl, NONE))]
+                if cur == FREE:
+                    return [Out("val", FREE, st)]
         for o in self.ev(e["recv"], st):
             if o.kind != "val":
                 res.append(o)
